@@ -106,7 +106,7 @@ Section Eval.
       match x, y with
       | VInt a, VInt b => Some (VBool (zcmp op a b))
       | VFloat a, VFloat b => Some (VBool (fcmp op a b))
-      | VStr a, VStr b => Some (VBool (if op then String.eqb a b else negb (String.eqb a b)))
+      | VStr a, VStr b => Some (VBool (match op with NotEquals => negb (String.eqb a b) | _ => String.eqb a b end))
       | VBool a, VBool b => Some (VBool (Bool.eqb a b))
       | _, _ => None
       end
@@ -161,3 +161,289 @@ Section Eval.
       destruct (IHb _ eq_refl) as (y & -> & Ty). destruct vc; cbn in Tc; try discriminate. destruct b0; eauto.
   Qed.
 End Eval.
+
+(* ------------------------------------------------------------------ accepted => simply typed *)
+
+Section Accepted.
+  Variable kinds : PositiveMap.t varkind.
+  Variable g : nat.
+  Notation G := (gfix g).
+  Notation afix := (afix kinds G).
+  Let PG : gpres G := gfix_pres g.
+  Let PA f : apres (afix f) := afix_pres kinds G PG f.
+
+  (* whenever the checker accepts e (in a well-formed state, with any fuel), the optional simple type is
+     defined and the class of the value of e has that base type as head *)
+  Definition sound_expr (e : expr) (ot : option bty) : Prop :=
+    forall f ctx s r s', wf s -> r_expr (afix f) e ctx s = Ok (r, s') ->
+      wf s' /\ ext s s' /\ exists t, ot = Some t /\ head s' (snd r) = Some (bty_head t).
+
+  Lemma rigid_bty t : rigid (bty_head t) = true.
+  Proof. destruct t; reflexivity. Qed.
+
+  Lemma bty_head_inj a b : bty_head a = bty_head b -> a = b.
+  Proof. destruct a, b; cbn; congruence. Qed.
+
+  Lemma shape_bty a b : same_shape (bty_head a) (bty_head b) = bty_eqb a b.
+  Proof. destruct a, b; reflexivity. Qed.
+
+  (* the tail of fn expression leaves a value of base type alone *)
+  Lemma tail_base (er : option tyid) (ex : tyid) s r s' t :
+    head s ex = Some (bty_head t) ->
+    (t0 <- find_type ex ;;
+     match t0 with
+     | HFn _ _ _ => c <- copy G ex ;; ret (er, c)
+     | _ => ret (er, ex)
+     end) s = Ok (r, s') ->
+    r = (er, ex) /\ s' = s.
+  Proof.
+    intros Hh H. rewrite (bind_ok _ _ _ _ _ (find_type_ok _ _ _ Hh)) in H.
+    destruct t; cbn in H; injection H as <- <-; auto.
+  Qed.
+
+  Lemma sound_lit e t : lit_type e = Some (bty_head t) -> sound_expr e (Some t).
+  Proof.
+    intros L f ctx s r s' W H.
+    destruct (lit_spec kinds G f e _ ctx s r s' L (rigid_bty t) W H) as (W' & E' & Hh). eauto 6.
+  Qed.
+
+  Ltac inv H := apply bind_inv_pres in H as (? & ? & ? & ? & ? & H); [|prs|assumption].
+
+  (* what a successful bin_op tells *)
+  Lemma bin_op_inv a b oa ob sp ctx con f s er ex s1 :
+    sound_expr a oa -> sound_expr b ob -> wf s ->
+    bin_op G (afix f) sp ctx a b con s = Ok ((er, ex), s1) ->
+    wf s1 /\ ext s s1 /\ exists ta tb y,
+      oa = Some ta /\ ob = Some tb /\
+      head s1 ex = Some (bty_head ta) /\ head s1 y = Some (bty_head tb) /\
+      ((forall g' s', wf s' -> head s' ex = Some (bty_head ta) -> head s' y = Some (bty_head tb) ->
+                      notok (check_one (gfix g') sp ex (con y) s')) -> False).
+  Proof.
+    intros Sa Sb W H. unfold bin_op in H.
+    apply bind_inv in H as ([ar x] & sa & Ha & H).
+    destruct (Sa _ _ _ _ _ W Ha) as (Wa & Ea & (ta & -> & Hx)). cbn [snd] in Hx.
+    apply bind_inv in H as ([br y] & sb & Hb & H).
+    destruct (Sb _ _ _ _ _ Wa Hb) as (Wb & Eb & (tb & -> & Hy)). cbn [snd] in Hy.
+    pose proof (head_keep _ _ _ _ Eb Hx (rigid_bty ta)) as Hx2.
+    apply bind_inv in H as (u3 & s3 & H3 & H).
+    destruct (add_constraint_spec _ _ _ _ _ Wb H3) as (W3 & E3 & Hd3 & _ & C3 & _).
+    apply bind_inv in H as (u4 & s4 & H4 & H).
+    destruct (add_constraint_spec _ _ _ _ _ W3 H4) as (W4 & E4 & Hd4 & _ & C4 & K4).
+    apply bind_inv in H as (u5 & s5 & H5 & H).
+    destruct (gp_check G PG _ _ _ _ _ W4 H5) as [W5 E5].
+    apply bind_inv in H as (u6 & s6 & H6 & H).
+    destruct (gp_check G PG _ _ _ _ _ W5 H6) as [W6 E6].
+    apply bind_inv in H as (r' & s7 & H7 & H). injection H as _ <- <-.
+    assert (P7 : pres (unify_option G sp ar br)) by prs.
+    destruct (P7 _ _ _ W6 H7) as [W7 E7].
+    assert (Hx4 : head s4 x = Some (bty_head ta)) by (rewrite Hd4, Hd3; assumption).
+    assert (Hy4 : head s4 y = Some (bty_head tb)) by (rewrite Hd4, Hd3; assumption).
+    assert (E47 : ext s4 s7) by (eapply ext_trans; [exact E5|]; eapply ext_trans; [exact E6|exact E7]).
+    split; [assumption|]. split.
+    { eapply ext_trans; [exact Ea|]. eapply ext_trans; [exact Eb|]. eapply ext_trans; [exact E3|].
+      eapply ext_trans; [exact E4|exact E47]. }
+    exists ta, tb, y. repeat split; try reflexivity.
+    - eapply head_keep; [exact E47|exact Hx4|apply rigid_bty].
+    - eapply head_keep; [exact E47|exact Hy4|apply rigid_bty].
+    - intros Hrej. eapply (check_rejects g sp x (con y) s4 W4 (K4 _ _ C3)); [|exact H5].
+      intros g' s' W' E'. apply Hrej; [assumption| |]; (eapply head_keep; [exact E'| |apply rigid_bty]); assumption.
+  Qed.
+
+  Definition lift2 (f : bty -> bty -> option bty) (oa ob : option bty) : option bty :=
+    match oa, ob with Some a, Some b => f a b | _, _ => None end.
+
+  Lemma expr_inv e ctx f s r s' :
+    r_expr (afix (S f)) e ctx s = Ok (r, s') ->
+    expr_body kinds G (afix f) e ctx s = Ok (r, s').
+  Proof. intros H. exact H. Qed.
+
+  (* + - * *)
+  Lemma sound_arith op k a b oa ob sp :
+    (op = Add /\ k = AAdd) \/ (op = Sub /\ k = ASub) \/ (op = Mul /\ k = AMul) ->
+    sound_expr a oa -> sound_expr b ob ->
+    sound_expr (EBinOp op a b sp) (lift2 (bin_ty op) oa ob).
+  Proof.
+    intros Hop Sa Sb f ctx s r s' W H. destruct f as [|f]; [discriminate|]. apply expr_inv in H. unfold expr_body in H.
+    apply bind_inv in H as ([er ex] & s1 & H1 & H).
+    assert (Hb : bin_op G (afix f) sp ctx a b
+                   (match k with AAdd => CAdd | ASub => CSub | AMul => CMul | ACmp => CCmp end) s = Ok ((er, ex), s1)).
+    { destruct Hop as [[-> ->]|[[-> ->]|[-> ->]]]; exact H1. }
+    destruct (bin_op_inv _ _ _ _ _ _ _ _ _ _ _ _ Sa Sb W Hb) as (W1 & E1 & (ta & tb & y & -> & -> & Hx & Hy & Hook)).
+    assert (Bk : arith_base_ok k (bty_head ta) (bty_head tb) = true).
+    { destruct (arith_base_ok k (bty_head ta) (bty_head tb)) eqn:Bk; [reflexivity|]. exfalso. apply Hook.
+      intros g' s0 W0 Hx0 Hy0.
+      assert (N : notok (g_arith (gfix g') k sp ex y s0)) by (eapply arith_rejects; eauto using rigid_bty).
+      destruct k; exact N. }
+    destruct (tail_base _ _ _ _ _ _ Hx H) as [-> ->].
+    split; [assumption|]. split; [assumption|]. exists ta. split; [|assumption]. cbn [lift2 snd].
+    destruct Hop as [[-> ->]|[[-> ->]|[-> ->]]]; destruct ta, tb; cbn in Bk |- *; congruence.
+  Qed.
+
+  (* < > *)
+  Lemma sound_cmp op a b oa ob sp :
+    op = Greater \/ op = Less ->
+    sound_expr a oa -> sound_expr b ob ->
+    sound_expr (EBinOp op a b sp) (lift2 (bin_ty op) oa ob).
+  Proof.
+    intros Hop Sa Sb f ctx s r s' W H. destruct f as [|f]; [discriminate|]. apply expr_inv in H. unfold expr_body in H.
+    apply bind_inv in H as ([er ex] & s1 & H1 & H).
+    assert (Hb : bin_op_ret G (afix f) sp ctx a b CCmp HBool s = Ok ((er, ex), s1)) by (destruct Hop as [-> | ->]; exact H1).
+    unfold bin_op_ret in Hb. apply bind_inv in Hb as ([r0 x0] & s2 & Hb & Hp).
+    destruct (bin_op_inv _ _ _ _ _ _ _ _ _ _ _ _ Sa Sb W Hb) as (W2 & E2 & (ta & tb & y & -> & -> & Hx & Hy & Hook)).
+    apply bind_inv in Hp as (t & s3 & Hp & Hr). injection Hr as <- <- <-.
+    destruct (push_spec _ _ _ _ W2 Hp) as (W3 & E3 & Ht).
+    assert (Bk : arith_base_ok ACmp (bty_head ta) (bty_head tb) = true).
+    { destruct (arith_base_ok ACmp (bty_head ta) (bty_head tb)) eqn:Bk; [reflexivity|]. exfalso. apply Hook.
+      intros g' s0 W0 Hx0 Hy0. cbn [check_one]. eapply arith_rejects; eauto using rigid_bty. }
+    destruct (tail_base _ _ _ _ _ TB Ht H) as [-> ->].
+    split; [assumption|]. split; [eapply ext_trans; eassumption|]. exists TB. split; [|assumption]. cbn [lift2].
+    destruct Hop as [-> | ->]; destruct ta, tb; cbn in Bk |- *; congruence.
+  Qed.
+
+  (* <= >= *)
+  Lemma sound_cmpequ op a b oa ob sp :
+    op = GreaterEqual \/ op = LessEqual ->
+    sound_expr a oa -> sound_expr b ob ->
+    sound_expr (EBinOp op a b sp) (lift2 (bin_ty op) oa ob).
+  Proof.
+    intros Hop Sa Sb f ctx s r s' W H. destruct f as [|f]; [discriminate|]. apply expr_inv in H. unfold expr_body in H.
+    apply bind_inv in H as ([er ex] & s1 & H1 & H).
+    assert (Hb : bin_op_ret G (afix f) sp ctx a b CCmpEqu HBool s = Ok ((er, ex), s1)) by (destruct Hop as [-> | ->]; exact H1).
+    unfold bin_op_ret in Hb. apply bind_inv in Hb as ([r0 x0] & s2 & Hb & Hp).
+    destruct (bin_op_inv _ _ _ _ _ _ _ _ _ _ _ _ Sa Sb W Hb) as (W2 & E2 & (ta & tb & y & -> & -> & Hx & Hy & Hook)).
+    apply bind_inv in Hp as (t & s3 & Hp & Hr). injection Hr as <- <- <-.
+    destruct (push_spec _ _ _ _ W2 Hp) as (W3 & E3 & Ht).
+    assert (Ok' : bin_ty GreaterEqual ta tb = Some TB).
+    { destruct (bin_ty GreaterEqual ta tb) as [t0|] eqn:Bt; [destruct ta, tb; cbn in Bt; congruence|]. exfalso. apply Hook.
+      intros g' s0 W0 Hx0 Hy0. cbn [check_one].
+      destruct (bty_eqb ta tb) eqn:Eq.
+      - apply bty_eqb_eq in Eq. subst tb.
+        apply bind_cases; [apply pres_unify|assumption|]. intros u s4 H4 W4 E4.
+        eapply (arith_rejects g' ACmp sp x0 y s4 (bty_head ta) (bty_head ta)); try assumption; try apply rigid_bty;
+          try (eapply head_keep; [exact E4| |apply rigid_bty]; eassumption).
+        destruct ta; cbn in Bt |- *; congruence.
+      - apply bind_notok_l. eapply unify_rejects; eauto using rigid_known, rigid_bty. rewrite shape_bty. exact Eq. }
+    destruct (tail_base _ _ _ _ _ TB Ht H) as [-> ->].
+    split; [assumption|]. split; [eapply ext_trans; eassumption|]. exists TB. split; [|assumption]. cbn [lift2].
+    destruct Hop as [-> | ->]; exact Ok'.
+  Qed.
+
+  (* == != <=> *)
+  Lemma sound_equ op a b oa ob sp :
+    op = Equals \/ op = NotEquals \/ op = AssertEq ->
+    sound_expr a oa -> sound_expr b ob ->
+    sound_expr (EBinOp op a b sp) (lift2 (bin_ty op) oa ob).
+  Proof.
+    intros Hop Sa Sb f ctx s r s' W H. destruct f as [|f]; [discriminate|]. apply expr_inv in H. unfold expr_body in H.
+    apply bind_inv in H as ([er ex] & s1 & H1 & H).
+    assert (Hb : bin_op_ret G (afix f) sp ctx a b CEqu HBool s = Ok ((er, ex), s1)) by (destruct Hop as [-> |[-> | ->]]; exact H1).
+    unfold bin_op_ret in Hb. apply bind_inv in Hb as ([r0 x0] & s2 & Hb & Hp).
+    destruct (bin_op_inv _ _ _ _ _ _ _ _ _ _ _ _ Sa Sb W Hb) as (W2 & E2 & (ta & tb & y & -> & -> & Hx & Hy & Hook)).
+    apply bind_inv in Hp as (t & s3 & Hp & Hr). injection Hr as <- <- <-.
+    destruct (push_spec _ _ _ _ W2 Hp) as (W3 & E3 & Ht).
+    assert (Eq : bty_eqb ta tb = true).
+    { destruct (bty_eqb ta tb) eqn:Eq; [reflexivity|]. exfalso. apply Hook.
+      intros g' s0 W0 Hx0 Hy0. cbn [check_one]. apply bind_notok_l.
+      eapply unify_rejects; eauto using rigid_known, rigid_bty. rewrite shape_bty. exact Eq. }
+    destruct (tail_base _ _ _ _ _ TB Ht H) as [-> ->].
+    split; [assumption|]. split; [eapply ext_trans; eassumption|]. exists TB. split; [|assumption]. cbn [lift2].
+    destruct Hop as [-> |[-> | ->]]; cbn [bin_ty]; rewrite Eq; reflexivity.
+  Qed.
+
+  (* and / or *)
+  Lemma sound_andor op a b oa ob sp :
+    op = And \/ op = Or ->
+    sound_expr a oa -> sound_expr b ob ->
+    sound_expr (EBinOp op a b sp) (lift2 (bin_ty op) oa ob).
+  Proof.
+    intros Hop Sa Sb f ctx s r s' W H. destruct f as [|f]; [discriminate|]. apply expr_inv in H. unfold expr_body in H.
+    apply bind_inv in H as ([er ex] & s1 & H1 & H).
+    assert (Hb : (x <- r_expr (afix f) a ctx;;
+                  (let '(a_ret, a0) := x in
+                   y <- r_expr (afix f) b ctx;;
+                   (let '(b_ret, b0) := y in
+                    boolean <- push_type HBool;;
+                    unify G sp a0 boolean;;; unify G sp b0 boolean;;;
+                    r <- unify_option G sp a_ret b_ret;; ret (r, a0)))) s = Ok ((er, ex), s1))
+      by (destruct Hop as [-> | ->]; exact H1).
+    apply bind_inv in Hb as ([ar x] & sa & Ha & Hb).
+    destruct (Sa _ _ _ _ _ W Ha) as (Wa & Ea & (ta & -> & Hx)). cbn [snd] in Hx.
+    apply bind_inv in Hb as ([br y] & sb & Hbb & Hb).
+    destruct (Sb _ _ _ _ _ Wa Hbb) as (Wb & Eb & (tb & -> & Hy)). cbn [snd] in Hy.
+    apply bind_inv in Hb as (bo & s3 & Hp & Hb). destruct (push_spec _ _ _ _ Wb Hp) as (W3 & E3 & Hbo).
+    apply bind_inv in Hb as (u4 & s4 & H4 & Hb).
+    destruct (unify_result_head _ _ _ _ _ _ _ W3 H4) as (W4 & E4 & _ & Heq4).
+    assert (Hx3 : head s3 x = Some (bty_head ta)).
+    { eapply head_keep; [exact E3| |apply rigid_bty]. eapply head_keep; [exact Eb|exact Hx|apply rigid_bty]. }
+    assert (Ta : ta = TB).
+    { destruct (bty_eqb ta TB) eqn:Eq; [now apply bty_eqb_eq|]. exfalso.
+      eapply (unify_rejects g sp x bo s3); eauto using rigid_known, rigid_bty; [rewrite <- (shape_bty ta TB) in Eq; exact Eq]. }
+    subst ta.
+    apply bind_inv in Hb as (u5 & s5 & H5 & Hb).
+    destruct (unify_result_head _ _ _ _ _ _ _ W4 H5) as (W5 & E5 & _ & Heq5).
+    assert (Hy4 : head s4 y = Some (bty_head tb)).
+    { eapply head_keep; [exact E4| |apply rigid_bty]. eapply head_keep; [exact E3|exact Hy|apply rigid_bty]. }
+    assert (Hbo4 : head s4 bo = Some HBool) by (eapply head_keep; [exact E4|exact Hbo|reflexivity]).
+    assert (Tb : tb = TB).
+    { destruct (bty_eqb tb TB) eqn:Eq; [now apply bty_eqb_eq|]. exfalso.
+      eapply (unify_rejects g sp y bo s4); eauto using rigid_known, rigid_bty; [rewrite <- (shape_bty tb TB) in Eq; exact Eq]. }
+    subst tb.
+    apply bind_inv in Hb as (r' & s6 & H6 & Hb). injection Hb as _ <- <-.
+    assert (P6 : pres (unify_option G sp ar br)) by prs. destruct (P6 _ _ _ W5 H6) as [W6 E6].
+    assert (Hx6 : head s6 x = Some HBool).
+    { eapply head_keep; [exact E6| |reflexivity]. eapply head_keep; [exact E5| |reflexivity].
+      eapply head_keep; [exact E4|exact Hx3|reflexivity]. }
+    destruct (tail_base _ _ _ _ _ TB Hx6 H) as [-> ->].
+    split; [assumption|]. split.
+    { eapply ext_trans; [exact Ea|]. eapply ext_trans; [exact Eb|]. eapply ext_trans; [exact E3|].
+      eapply ext_trans; [exact E4|]. eapply ext_trans; [exact E5|exact E6]. }
+    exists TB. split; [|assumption]. destruct Hop as [-> | ->]; reflexivity.
+  Qed.
+
+  (* not *)
+  Lemma sound_not a oa sp :
+    sound_expr a oa -> sound_expr (EUniOp Not a sp) (match oa with Some t => un_ty Not t | None => None end).
+  Proof.
+    intros Sa f ctx s r s' W H. destruct f as [|f]; [discriminate|]. apply expr_inv in H. unfold expr_body in H.
+    apply bind_inv in H as ([er ex] & s1 & H1 & H). cbv beta iota in H1.
+    apply bind_inv in H1 as ([ar x] & sa & Ha & H1).
+    destruct (Sa _ _ _ _ _ W Ha) as (Wa & Ea & (ta & -> & Hx)). cbn [snd] in Hx.
+    apply bind_inv in H1 as (bo & s3 & Hp & H1). destruct (push_spec _ _ _ _ Wa Hp) as (W3 & E3 & Hbo).
+    apply bind_inv in H1 as (u & s4 & H4 & H1). injection H1 as <- <- <-.
+    destruct (unify_result_head _ _ _ _ _ _ _ W3 H4) as (W4 & E4 & Hru & Heq4).
+    assert (Hx3 : head s3 x = Some (bty_head ta)) by (eapply head_keep; [exact E3|exact Hx|apply rigid_bty]).
+    assert (Ta : ta = TB).
+    { destruct (bty_eqb ta TB) eqn:Eq; [now apply bty_eqb_eq|]. exfalso.
+      eapply (unify_rejects g sp x bo s3); eauto using rigid_known, rigid_bty; [rewrite <- (shape_bty ta TB) in Eq; exact Eq]. }
+    subst ta.
+    assert (Hu : head s4 u = Some HBool).
+    { rewrite Hru. eapply head_keep; [exact E4|exact Hx3|reflexivity]. }
+    destruct (tail_base _ _ _ _ _ TB Hu H) as [-> ->].
+    split; [assumption|]. split; [eapply ext_trans; [exact Ea|]; eapply ext_trans; eassumption|].
+    exists TB. split; [reflexivity|assumption].
+  Qed.
+
+  (* unary minus *)
+  Lemma sound_neg a oa sp :
+    sound_expr a oa -> sound_expr (EUniOp Neg a sp) (match oa with Some t => un_ty Neg t | None => None end).
+  Proof.
+    intros Sa f ctx s r s' W H. destruct f as [|f]; [discriminate|]. apply expr_inv in H. unfold expr_body in H.
+    apply bind_inv in H as ([er ex] & s1 & H1 & H). cbv beta iota in H1.
+    apply bind_inv in H1 as ([ar x] & sa & Ha & H1).
+    destruct (Sa _ _ _ _ _ W Ha) as (Wa & Ea & (ta & -> & Hx)). cbn [snd] in Hx.
+    apply bind_inv in H1 as (u2 & s2 & H2 & H1).
+    destruct (add_constraint_spec _ _ _ _ _ Wa H2) as (W2 & E2 & Hd2 & _ & C2 & _).
+    apply bind_inv in H1 as (u3 & s3 & H3 & H1). injection H1 as <- <- <-.
+    destruct (gp_check G PG _ _ _ _ _ W2 H3) as [W3 E3].
+    assert (Hx2 : head s2 x = Some (bty_head ta)) by (rewrite Hd2; assumption).
+    assert (Rej : (ta = TS \/ ta = TB) -> False).
+    { intros Hta. eapply (check_rejects g sp x CNeg s2 W2 C2); [|exact H3]. intros g' s0 W0 E0. cbn [check_one].
+      assert (Hx0 : head s0 x = Some (bty_head ta)) by (eapply head_keep; [exact E0|exact Hx2|apply rigid_bty]).
+      rewrite (bind_ok _ _ _ _ _ (find_type_ok _ _ _ Hx0)). destruct Hta as [-> | ->]; apply notok_fail. }
+    assert (Ta : un_ty Neg ta = Some ta) by (destruct ta; try reflexivity; exfalso; apply Rej; auto).
+    assert (Hx3 : head s3 x = Some (bty_head ta)) by (eapply head_keep; [exact E3|exact Hx2|apply rigid_bty]).
+    destruct (tail_base _ _ _ _ _ _ Hx3 H) as [-> ->].
+    split; [assumption|]. split; [eapply ext_trans; [exact Ea|]; eapply ext_trans; eassumption|].
+    exists ta. split; assumption.
+  Qed.
+End Accepted.
